@@ -610,3 +610,11 @@ fn resource_allocation_to_msg(
             .collect(),
     }
 }
+
+#[cfg(feature = "verif")]
+pub(crate) fn verif_retract_check_process(
+    check_interval: Duration,
+    state_ref: WorkerStateRef,
+) -> impl Future<Output = ()> {
+    retract_check_process(check_interval, state_ref)
+}
